@@ -35,7 +35,8 @@ class O2JToSM(ConvertBase):
             )
             sm.bpms = cls.cast(o2j.bpms, SMBpmList, dict(offset="offset", bpm="bpm"))
             sm.description = f"Level {o2js.level_name(o2j)}"
-            sm.chart_type = SMMapChartTypes.get_type(o2j.stack().column.max() + 1)
+            # O2Jam is always 7 keys, whichever columns a difficulty uses
+            sm.chart_type = SMMapChartTypes.KB7_SINGLE
 
             sms.maps = [sm]
 
@@ -71,6 +72,7 @@ class O2JToSM(ConvertBase):
             )
             sm.bpms = cls.cast(o2j.bpms, SMBpmList, dict(offset="offset", bpm="bpm"))
             sm.description = f"Level {o2js.level_name(o2j)}"
+            sm.chart_type = SMMapChartTypes.KB7_SINGLE
 
             sms.maps.append(sm)
 
